@@ -823,14 +823,22 @@ theorem getTypeInfo_ne_void (size al : Nat) (types : List Scalar) : getTypeInfoL
         · simp [splitClassifyLegacy] at h
   · simp at h
 
-/-- **one parameter**: llgo's per-parameter lowering followed by the scalar convention puts the parameter
+/-- what the placement proofs need to know about a classifier `cls` on one view -/
+structure ClsOK (cls : View → Bool → PassKind) (v : View) : Prop where
+  sound : ∀ r, Sound (cls v r) v
+  align8 : v.align ≤ 8
+  direct : ∀ r, cls v r = .direct → (v.elems = [] ∧ v.types = []) ∨ ∃ s, v.elems = [(0, s)] ∧ v.types = [s]
+  few : v.types.length < 2 → (v.size + 7) / 8 ≤ 1
+
+/-- **one parameter**: per-parameter lowering followed by the scalar convention puts the parameter
     exactly where the psABI does, provided the parameter is not split (`argNoSplit`) -/
-theorem placeArg_eq (v : View) (st : St) (hst : st.ok) (hn : v.natural) (hns : argNoSplit v st = true) :
-    ccArgs (lowerParamV v) st = placeArg v st := by
-  have hs := classifyV_sound v hn false
-  have hal : v.align ≤ 8 := by have := natural_align v hn; omega
-  unfold lowerParamV lowerParamC
-  cases hk : classifyLegacyV v false with
+theorem placeArg_eq (cls : View → Bool → PassKind) (v : View) (st : St) (hst : st.ok) (hok : ClsOK cls v)
+    (hns : argNoSplit v st = true) :
+    ccArgs (lowerParamC cls v) st = placeArg v st := by
+  have hs := hok.sound false
+  have hal : v.align ≤ 8 := hok.align8
+  unfold lowerParamC
+  cases hk : cls v false with
   | void =>
     rw [hk] at hs
     have himg : regImage v = .regs [] := by simpa [kindImage, kindRegs] using hs.1.symm
@@ -851,27 +859,15 @@ theorem placeArg_eq (v : View) (st : St) (hst : st.ok) (hn : v.natural) (hns : a
     exact place_double r1 r2 v st (off2 r1 r2) hst hal himg hns
   | direct =>
     rw [hk] at hs
-    have hlen : v.types.length < 2 := by
-      unfold classifyLegacyV at hk
-      split at hk
-      · simp at hk
-      · exact getTypeInfo_direct _ _ _ hk
-    obtain ⟨h1, h2, h3⟩ := hn
     have himg := hs.1.symm
     simp only [kindImage, kindRegs] at himg
-    match hty : v.types, hlen with
-    | [], _ =>
-      rw [hty] at h1
-      simp only [natLayout] at h1
-      rw [h1] at himg
+    rcases hok.direct false hk with ⟨he, ht⟩ | ⟨s, he, ht⟩
+    · rw [he] at himg
+      rw [ht]
       simp only [List.map_nil, ccArgs] at himg ⊢
       exact (place_none v st hst himg).symm
-    | [s], _ =>
-      rw [hty] at h1
-      have h0 : alignUp 0 s.size = 0 := by
-        rcases size_cases s with h | h | h | h <;> rw [h] <;> decide
-      simp only [natLayout, h0] at h1
-      rw [h1] at himg
+    · rw [he] at himg
+      rw [ht]
       simp only [List.map_cons, List.map_nil] at himg ⊢
       exact place_single s.regTy v st hst hal himg
 
@@ -897,14 +893,14 @@ theorem placeArg_ok (v : View) (st : St) (hst : st.ok) : (placeArg v st).2.ok :=
     · exact hst
 
 /-- **the whole parameter list**, by induction with the register/stack state as invariant -/
-theorem placeArgs_eq (vs : List View) (st : St) (hst : st.ok) (hn : ∀ v ∈ vs, v.natural)
-    (hns : noSplitArgs vs st = true) : implPlaceArgs vs st = placeArgs vs st := by
+theorem placeArgs_eq (cls : View → Bool → PassKind) (vs : List View) (st : St) (hst : st.ok)
+    (hn : ∀ v ∈ vs, ClsOK cls v) (hns : noSplitArgs vs st = true) : implPlaceArgsC cls vs st = placeArgs vs st := by
   induction vs generalizing st with
   | nil => rfl
   | cons v r ih =>
     simp only [noSplitArgs, Bool.and_eq_true] at hns
-    have h1 := placeArg_eq v st hst (hn v (by simp)) hns.1
-    simp only [implPlaceArgs, placeArgs]
+    have h1 := placeArg_eq cls v st hst (hn v (by simp)) hns.1
+    simp only [implPlaceArgsC, placeArgs]
     rw [h1]
     rw [ih (placeArg v st).2 (placeArg_ok v st hst) (fun x hx => hn x (by simp [hx])) hns.2]
 
@@ -924,13 +920,14 @@ theorem classifyAgg_len (size : Nat) (elems : List Elem) (cs : List Class) (h : 
       rw [← h]; simp; omega
 
 /-- results: RAX/RDX, XMM0/XMM1 in class order, or `sret` -/
-theorem implRet_eq (r : Option View) (hn : ∀ v ∈ r, v.natural) : implRet r = placeRet r := by
+theorem implRet_eq (cls : View → Bool → PassKind) (r : Option View) (hn : ∀ v ∈ r, ClsOK cls v) :
+    implRetC cls r = placeRet r := by
   cases r with
   | none => rfl
   | some v =>
     have hnv := hn v (by simp)
-    have hs := classifyV_sound v hnv true
-    have hal : v.align ≤ 8 := by have := natural_align v hnv; omega
+    have hs := hnv.sound true
+    have hal : v.align ≤ 8 := hnv.align8
     have hok : (⟨0, 0, 0⟩ : St).ok := by simp [St.ok]
     -- at the empty state every register image fits
     have hfit : ∀ cs, classifyAgg v.size v.elems = .regs cs → fits cs ⟨0, 0, 0⟩ = true := by
@@ -954,8 +951,8 @@ theorem implRet_eq (r : Option View) (hn : ∀ v ∈ r, v.natural) : implRet r =
       | memory => simp
       | regs cs => simp [hfit cs hc]
     rw [hspec]
-    unfold implRet implRetC lowerRetC
-    cases hk : classifyLegacyV v true with
+    unfold implRetC lowerRetC
+    cases hk : cls v true with
     | void =>
       rw [hk] at hs
       simp only [hk]
@@ -1000,34 +997,14 @@ theorem implRet_eq (r : Option View) (hn : ∀ v ∈ r, v.natural) : implRet r =
       simp only [kindImage, kindRegs] at himg
       have hne : classifyAgg v.size v.elems ≠ .memory := by
         intro h; simp [regImage, h] at himg
-      have hlen : v.size = 0 ∨ v.types.length < 2 := by
-        unfold classifyLegacyV at hk
-        split at hk
-        · left; assumption
-        · right; exact getTypeInfo_direct _ _ _ hk
-      have hal4 := natural_align v hnv
-      obtain ⟨h1, h2, h3⟩ := hnv
-      have hlen' : v.types.length < 2 := by
-        rcases hlen with h | h
-        · have hge := le_alignUp (natEnd v.types 0) v.align (by omega)
-          cases hty : v.types with
-          | nil => simp
-          | cons s r => rw [hty] at hge h2; have := natEnd_cons_gt s r 0; omega
-        · exact h
-      match hty : v.types, hlen' with
-      | [], _ =>
-        rw [hty] at h1
-        simp only [natLayout] at h1
-        rw [h1] at himg
+      rcases hnv.direct true hk with ⟨he, ht⟩ | ⟨s, he, ht⟩
+      · rw [he] at himg
+        rw [ht]
         simp only [List.map_nil] at himg
         have hp := place_none v ⟨0, 0, 0⟩ hok himg
         cases hc : classifyAgg v.size v.elems <;> simp_all [ccArgs]
-      | [s], _ =>
-        rw [hty] at h1
-        have h0 : alignUp 0 s.size = 0 := by
-          rcases size_cases s with h | h | h | h <;> rw [h] <;> decide
-        simp only [natLayout, h0] at h1
-        rw [h1] at himg
+      · rw [he] at himg
+        rw [ht]
         simp only [List.map_cons, List.map_nil] at himg ⊢
         have hp := place_single s.regTy v ⟨0, 0, 0⟩ hok hal himg
         rw [hp]
@@ -1035,8 +1012,8 @@ theorem implRet_eq (r : Option View) (hn : ∀ v ∈ r, v.natural) : implRet r =
 
 /-! ## `fitsInRegs` implies `noSplit` -/
 
-theorem argFits_noSplit (v : View) (st : St) (hst : st.ok) (hn : v.natural) (h : argFits v st = true) :
-    argNoSplit v st = true := by
+theorem argFits_noSplit (v : View) (st : St) (hst : st.ok) (hfew : v.types.length < 2 → (v.size + 7) / 8 ≤ 1)
+    (h : argFits v st = true) : argNoSplit v st = true := by
   unfold argFits at h
   unfold argNoSplit
   cases hc : classifyAgg v.size v.elems with
@@ -1047,9 +1024,8 @@ theorem argFits_noSplit (v : View) (st : St) (hst : st.ok) (hn : v.natural) (h :
     simp only [Bool.or_eq_true, decide_eq_true_eq] at h ⊢
     rcases h with h | h
     · -- fewer than two leaves: at most one eightbyte
-      have hal := natural_align v hn
-      obtain ⟨h1, h2, h3⟩ := hn
       have hlen : cs.length ≤ 1 := by
+        have := hfew h
         unfold classifyAgg at hc
         split at hc
         · simp at hc
@@ -1058,17 +1034,7 @@ theorem argFits_noSplit (v : View) (st : St) (hst : st.ok) (hn : v.natural) (h :
           · simp only [ArgClass.regs.injEq] at hc
             rw [← hc]
             simp only [List.length_map, List.length_range]
-            match hty : v.types, h with
-            | [], _ => rw [hty] at h2; simp only [natEnd] at h2; rw [h2]
-                       rcases hal with a | a | a | a <;> rw [a] <;> decide
-            | [s], _ =>
-              rw [hty] at h2
-              have h0 : natEnd [s] 0 = s.size := by
-                simp only [natEnd]
-                rcases size_cases s with h | h | h | h <;> rw [h] <;> unfold alignUp <;> omega
-              rw [h0] at h2
-              have := alignUp_le_of_le8 s.size v.align (size_le8 s) hal
-              omega
+            exact this
       obtain ⟨hg, hs⟩ := hst
       match cs, hlen with
       | [], _ => right; rfl
@@ -1083,7 +1049,8 @@ theorem argFits_noSplit (v : View) (st : St) (hst : st.ok) (hn : v.natural) (h :
           · right; simp [exhausted]; omega
     · left; exact h
 
-theorem fitsArgs_noSplit (vs : List View) (st : St) (hst : st.ok) (hn : ∀ v ∈ vs, v.natural)
+theorem fitsArgs_noSplit (vs : List View) (st : St) (hst : st.ok)
+    (hn : ∀ v ∈ vs, v.types.length < 2 → (v.size + 7) / 8 ≤ 1)
     (h : fitsArgs vs st = true) : noSplitArgs vs st = true := by
   induction vs generalizing st with
   | nil => rfl
